@@ -226,7 +226,7 @@ func MustBuild(v *refval.V) datamodel.Node {
 	n, err := Build(basicnode.Prototype.Any, v)
 	nd.Assert(err == nil, "basicnode builder accepts the value")
 	if err != nil {
-		nd.Assume(false)
+		panic("gen.MustBuild: " + err.Error())
 	}
 	return n
 }
